@@ -257,6 +257,23 @@ def run(report, tier):
         add_type(kf, q, "f64", "", nbytes, q.name in string_types, True)
     for q in catalogue.ASTRO:
         add_type(kf, q, "f64", "A", nbytes, tier == "thorough", True)
+    kf.add(Harness("one_registry", """
+        use quantities::One;
+        let mut n = 0;
+        for u in <One as Unit>::iter() { assert!(u == ONE); n += 1; }
+        assert!(n == 1, "the dimensionless amount has exactly one unit");
+        assert!(<One as Unit>::from_symbol("") == Some(ONE), "its unit is found by its (empty) symbol");
+        assert!(<AmountT as Quantity>::unit_from_symbol("") == Some(ONE));
+        assert!(<One as Unit>::from_symbol("One").is_none(), "and by nothing else");
+        assert!(<AmountT as Quantity>::unit_from_symbol("1").is_none());
+        assert!(<One as LinearScaledUnit>::from_scale(1.0) == Some(ONE));
+        let x: f64 = kani::any();
+        kani::assume(x != 1.0);
+        assert!(<One as LinearScaledUnit>::from_scale(x).is_none());
+        assert!(<AmountT as HasRefUnit>::unit_from_scale(x).is_none());
+        assert!(ONE.is_ref_unit() && ONE.as_qty() == 1.0);
+        kani::cover!(x.is_nan(), "NaN scale");
+    """, unwind=6, key="f64 One registry and lookups"))
     kf.add(Harness("canary_must_fail", "        let i: usize = kani::any();\n        kani::assume(i < LENGTH_N);\n        assert!(LENGTH_IDENTS[i].is_ref_unit());\n",
                    expect="fail", unwind=15, key="canary", symbolic=False))
     kd = KaniCrate("c09d", "dec", extra_src="use quantities::Decimal;\n" + G.PRELUDE + synthdefs.SYNTH_RS + "".join(G.tables(q, "dec") for q in catalogue.CATALOGUE + synth))
